@@ -14,7 +14,7 @@ F = 'ixai/utils/tracker/'
 
 cls('Tracker', file=F + 'base.py',
     fields={'N': TInt, 'tracked_value': TNum, 'sum_squares': TNum, 'alpha': TNum},
-    optional=['sum_squares', 'alpha'],
+    optional=['sum_squares', 'alpha'], opaque_inv=True,
     ghost={'kind': TInt, 'S1': TNum, 'S2': TNum, 'lo': TNum, 'hi': TNum, 'lo0': TNum, 'hi0': TNum, 'E': TNum},
     invariant={
         'N_nonneg': lambda s: s.N >= 0,
@@ -56,9 +56,36 @@ _update_ensures = {
     'kind_const': lambda c: land(c.new.kind == c.old.kind, c.new.alpha == c.old.alpha),
 }
 
+_UPD = None
+
+
+def UPD(t0, v, t1):
+    """opaque `t1 is t0 after update(v)`: stands for the whole postcondition of Tracker.update (the ensures clauses,
+    the ghost step and the invariant of t1); assumed at call sites together with the revealed clauses, so callers that
+    only carry the relation around (MultiValueTracker) need no arithmetic"""
+    global _UPD
+    if _UPD is None:
+        _UPD = z3.Function('tracker_upd', t0.sort(), z3.RealSort(), t1.sort(), z3.BoolSort())
+    return _UPD(t0, v, t1)
+
+
+def reveal_upd(t0term, v, t1term):
+    """definition of UPD at one instance"""
+    from pyvc.sym import SObj
+    t0, t1 = ObjView(SObj('Tracker', term=t0term)), ObjView(SObj('Tracker', term=t1term))
+    c = Ctx(old=t0, new=t1, a=type('A', (), {'value_i': v})())
+    facts = [f(c) for f in _update_ensures.values()]
+    for g, term in _ghost_step(c).items():
+        facts.append(getattr(t1, g) == term)
+    facts += [f(t1) for f in CLASSES['Tracker'].all_invariants().values()]
+    facts.append(INV('Tracker', t1term))
+    return UPD(t0term, v, t1term) == land(*facts)
+
+
 # interface contract used at call sites where the concrete tracker is not known
 fn('Tracker.update', params={'value_i': TNum}, self_cls='Tracker', ensures=_update_ensures,
    ghost_update=_ghost_step, modifies=['N', 'tracked_value', 'sum_squares'], returns_self=True, assume_only=True,
+   opaque=lambda c: UPD(c.old.term, R(c.a.value_i), c.new.term),
    notes='interface; proved for WelfordTracker.update and ExponentialSmoothingTracker.update (implements=)')
 
 fn('Tracker.__init__', F + 'base.py', kind='init', self_cls='Tracker', inline=True)
